@@ -146,7 +146,7 @@ def main():
         cases.append(lit)
         meta.append(m)
 
-    styles_cycle = itertools.cycle([('utc', 'utc'), ('naive', 'naive'), (120, -330), ('utc', 345)])
+    styles_cycle = itertools.cycle([('utc', 'utc'), ('naive', 'naive'), (120, -330), ('utc', 345), ('naive', 'utc'), (-90, 'naive')])
     # constructor: all 49 (start,end) pairs, datetime end and timedelta end
     for s in pts:
         for e in pts:
